@@ -15,6 +15,9 @@ from pfv import terms as tm
 from pfv import smt, fc, cutloops
 from pfv.framework import Obligation, Verdict, real_exec
 from pfv.proxies import explore, SReal, SInt, Unsupported, ctx, lift, PathAbort
+import functools as _ft
+_explore_raw = explore
+explore = _ft.partial(_explore_raw, enforce_bounds=True)     # shim range assumptions (slices / indices) must be provable on every returning path
 from contracts import hedging as H
 
 NP, NE = tm.var('n_paths', 'I'), tm.var('n_epochs', 'I')
